@@ -23,6 +23,8 @@ import (
 type Binding struct {
 	Name     string `json:"name"`
 	Mutating bool   `json:"mutating"`
+	// Group: the documented option that only adds snapshots of a group to the binding context
+	Group string `json:"group,omitempty"`
 }
 
 type HookSpec struct {
@@ -72,10 +74,10 @@ func gen(t *rapid.T) Case {
 				continue
 			}
 			usedV[name] = true
-			hs.Bindings = append(hs.Bindings, Binding{Name: name})
+			hs.Bindings = append(hs.Bindings, Binding{Name: name, Group: rapid.SampledFrom([]string{"", "", "g1"}).Draw(t, "vgroup")})
 		}
 		for i, n := 0, rapid.IntRange(0, 2).Draw(t, "nm"); i < n; i++ {
-			hs.Bindings = append(hs.Bindings, Binding{Name: rapid.SampledFrom(mutNames).Draw(t, "mname"), Mutating: true})
+			hs.Bindings = append(hs.Bindings, Binding{Name: rapid.SampledFrom(mutNames).Draw(t, "mname"), Mutating: true, Group: rapid.SampledFrom([]string{"", "", "g1"}).Draw(t, "mgroup")})
 		}
 		if len(hs.Bindings) == 0 {
 			hs.Bindings = append(hs.Bindings, Binding{Name: valNames[h]})
@@ -137,7 +139,7 @@ func runCase(c Case) (ev.Info, error) {
 	for _, h := range c.Hooks {
 		d := hcfg.D{}
 		for _, b := range h.Bindings {
-			a := hcfg.Adm{Name: b.Name, Rules: []hcfg.AdmRule{{Operations: []string{"CREATE"}, APIGroups: []string{""}, APIVersions: []string{"v1"}, Resources: []string{"pods"}}}}
+			a := hcfg.Adm{Name: b.Name, Group: b.Group, Rules: []hcfg.AdmRule{{Operations: []string{"CREATE"}, APIGroups: []string{""}, APIVersions: []string{"v1"}, Resources: []string{"pods"}}}}
 			if b.Mutating {
 				d.Mutating = append(d.Mutating, a)
 			} else {
@@ -320,7 +322,7 @@ func runCase(c Case) (ev.Info, error) {
 	return info, nil
 }
 
-const rule = "1-3 scripted hooks with generated kubernetesValidating/kubernetesMutating bindings (names with dots, capitals, spaces, slashes, underscores; collisions after URL sanitising and across hooks included) loaded by the real operator assembly; 1-6 AdmissionReview requests through the real HTTP router: path {registered, unknown configuration id, unknown webhook id, extra segment, root} x body {valid, missing request, not JSON} x hook exit {0,1,2} x response file {empty, allowed, allowed+message+warnings+patch, denied, {}, truncated, wrong type, whitespace}; oracle: decision table for allowed=true, uid echo, verdict relay (warnings, patch, patchType, denial message), and the hook log shows the hook/binding/type that registered the path. Non-trivial: a request that must not be allowed."
+const rule = "1-3 scripted hooks with generated kubernetesValidating/kubernetesMutating bindings (names with dots, capitals, spaces, slashes, underscores; collisions after URL sanitising and across hooks included; a third of the bindings with the group option) loaded by the real operator assembly; 1-6 AdmissionReview requests through the real HTTP router: path {registered, unknown configuration id, unknown webhook id, extra segment, root} x body {valid, missing request, not JSON} x hook exit {0,1,2} x response file {empty, allowed, allowed+message+warnings+patch, denied, {}, truncated, wrong type, whitespace}; oracle: decision table for allowed=true, uid echo, verdict relay (warnings, patch, patchType, denial message), and the hook log shows the hook/binding/type that registered the path. Non-trivial: a request that must not be allowed."
 
 func TestAdmission(t *testing.T) {
 	ev.Main(t, ev.Spec[Case]{Property: "C14", Part: "admission", Rule: rule, Gen: gen, Run: runCase, Journal: true})
